@@ -165,14 +165,64 @@ Proof.
   destruct (slot_run signed (Some u) r) as [vs t''] eqn:E. simpl in *. exact IH.
 Qed.
 
-(* an in-place modifier drops the entry (FEMData._clear_query_caches pops the
-   three names): whatever was asked before, later calls answer for the
-   modified mesh (signed') *)
-Lemma slot_after_modification : forall signed signed' t h o,
-  fst (slot_query signed' (drop_slot (snd (slot_run signed t h))) o) = validate o (signed' (o_mode o)).
+Lemma user_part_idem : forall t, user_part (user_part t) = user_part t.
 Proof.
-  intros. unfold drop_slot.
-  destruct (slot_query_pure signed' None o I) as [A _]. exact A.
+  intros [e|]; simpl; auto. destruct (e_opts e) eqn:E; simpl; auto. rewrite E. reflexivity.
+Qed.
+
+Lemma valid_user_part : forall signed t, valid_table signed (user_part t).
+Proof.
+  intros signed [e|]; simpl; auto. destruct (e_opts e) eqn:E; simpl; auto. rewrite E. exact I.
+Qed.
+
+(* an in-place modifier drops the library's entry (FEMData._clear_query_caches pops the names
+   whose entry carries options): whatever was asked before, later calls answer what a freshly
+   built mesh equal to the MODIFIED one (signed', same user variables) answers *)
+Lemma slot_after_modification : forall signed signed' t h o, valid_table signed t ->
+  fst (slot_query signed' (drop_slot (snd (slot_run signed t h))) o) = fresh_answer signed' t o.
+Proof.
+  intros signed signed' t h o Hv. unfold drop_slot.
+  destruct (slot_run_pure signed h t Hv) as [_ [_ C]].
+  destruct (slot_query_pure signed' _ o (valid_user_part signed' (snd (slot_run signed t h)))) as [A _].
+  rewrite A. apply fresh_answer_ext. rewrite user_part_idem. exact C.
+Qed.
+
+Lemma spec_m_ext : forall h signed t t', user_part t = user_part t' -> spec_m signed t h = spec_m signed t' h.
+Proof.
+  induction h as [|[o|s] r IH]; intros signed t t' H; simpl; auto.
+  rewrite (fresh_answer_ext signed t t' o H). rewrite (IH signed t t' H). reflexivity.
+Qed.
+
+(* histories that mix calls (any options) and in-place modifications (each may change what the
+   kernels compute): every answer is the answer of a freshly built mesh equal to the current
+   one, and the user's part of the table is the same at the end *)
+Lemma run_m_pure : forall h signed t, valid_table signed t ->
+  fst (run_m signed t h) = spec_m signed t h /\
+  user_part (snd (run_m signed t h)) = user_part t.
+Proof.
+  induction h as [|[o|s] r IH]; intros signed t Hv; simpl.
+  - auto.
+  - destruct (slot_query_pure signed t o Hv) as [A [B C]].
+    destruct (slot_query signed t o) as [v t'] eqn:E. simpl in A, B, C.
+    destruct (IH signed t' B) as [A' C'].
+    destruct (run_m signed t' r) as [vs t''] eqn:E'. simpl in *.
+    split.
+    + rewrite A, A'. rewrite (spec_m_ext r signed t' t C). reflexivity.
+    + rewrite C'. exact C.
+  - destruct (IH s (drop_slot t) (valid_user_part s t)) as [A C]. unfold drop_slot in *.
+    split.
+    + rewrite A. apply spec_m_ext. apply user_part_idem.
+    + rewrite C. apply user_part_idem.
+Qed.
+
+(* a variable named like a slot that the user stored survives every history of queries AND
+   in-place modifications, unchanged *)
+Lemma run_m_keeps_user : forall h signed u, e_opts u = None -> snd (run_m signed (Some u) h) = Some u.
+Proof.
+  induction h as [|[o|s] r IH]; intros signed u Hu; [reflexivity| |].
+  - cbn [run_m]. rewrite (slot_query_user signed u o Hu).
+    specialize (IH signed u Hu). destruct (run_m signed (Some u) r) as [vs t''] eqn:E. simpl in *. exact IH.
+  - cbn [run_m]. unfold drop_slot. rewrite (user_part_user u Hu). apply IH. exact Hu.
 Qed.
 
 (* non-vacuity: a mesh with one inverted element; absolute values, then signed
@@ -191,3 +241,15 @@ Example ex_user_kept :
     ([Val [5#1; 7#1; 3#1]; Val [5#1; -(7#1); 3#1]; Val [5#1; -(7#1); 3#1]; Raise; Val [5#1; 7#1; 3#1]],
      Some ex_user).
 Proof. vm_compute. reflexivity. Qed.
+
+(* non-vacuity with modifications: an inverted element repaired in between (signed changes),
+   a user's variable with a negative entry kept throughout *)
+Definition ex_signed' (m : nat) : list Q := [1#2; 1#3; 2#1].
+Definition ex_mhist : list mop :=
+  [MCall (mkopts 0 false false); MModify ex_signed'; MCall (mkopts 0 true false); MCall (mkopts 0 false true)].
+Example ex_run_m :
+  run_m ex_signed None ex_mhist =
+    ([Val [1#2; -(1#3); 2#1]; Val [1#2; 1#3; 2#1]; Val [1#2; 1#3; 2#1]],
+     Some (mkentry [1#2; 1#3; 2#1] (Some (mkopts 0 false true))))
+  /\ snd (run_m ex_signed (Some ex_user) ex_mhist) = Some ex_user.
+Proof. split; vm_compute; reflexivity. Qed.
